@@ -99,6 +99,9 @@ var allFuncs = customfuncs.Merge(customfuncs.CommonCustomFuncs, v21.OmniV21Custo
 
 var externals = map[string]string{"ext1": " ex ", "ext2": "7", "ext3": "010", "ext4": "0x1F", "ext5": "1e3"}
 
+// the properties of a second transform created from the same Schema ("missing" stays missing)
+var externalsB = map[string]string{"ext1": "other", "ext2": "x8", "ext3": "12", "ext4": "31", "ext5": "true"}
+
 // ---- observation of one record --------------------------------------------------------------------
 
 type recObs struct {
@@ -112,10 +115,16 @@ type recObs struct {
 	ReadObs  string // Coq term of the observed outcome
 }
 
+// capture = what one Schema hands to the harness; runCap = one transform of it
 type capture struct {
 	decl *transform.Decl
+	fo   *GDecl  // the generated FINAL_OUTPUT (nil: no direct expectations)
+	cur  *runCap // the transform being created: its reader binds to it
+}
+
+type runCap struct {
+	ext  map[string]string
 	recs []*recObs
-	fo   *GDecl // the generated FINAL_OUTPUT (nil: no direct expectations)
 }
 
 // expectation for one member of FINAL_OUTPUT computed directly from the documented rules
@@ -163,47 +172,114 @@ func expectNorm(d *GDecl, s string) (string, interface{}) {
 // directExpectations evaluates the members of FINAL_OUTPUT that are plain constants or plain
 // fields with a static xpath straight from the documented rules, with the xpath engine as a
 // black box: no node -> null result, one -> its text, several -> the record fails.
-func directExpectations(fo *GDecl, n *idr.Node) []memberExp {
+// leafValue evaluates a constant / external / plain field (static xpath or none) at node n straight
+// from the documented rules: state "fail" | "absent" | "present" and the normalised value.
+func leafValue(d *GDecl, n *idr.Node, externals map[string]string) (string, interface{}, bool) {
+	if d.Func != nil || d.Template != nil || d.HasObject || d.HasArray || d.XDyn != nil {
+		return "", nil, false
+	}
+	switch {
+	case d.Const != nil:
+		st, v := expectNorm(d, *d.Const)
+		return st, v, true
+	case d.External != nil:
+		if ev, ok := externals[*d.External]; ok {
+			st, v := expectNorm(d, ev)
+			return st, v, true
+		}
+		return "fail", nil, true
+	}
+	nodes := []*idr.Node{n}
+	if d.XPath != nil && strings.TrimSpace(*d.XPath) != "" {
+		var err error
+		nodes, err = idr.MatchAll(n, *d.XPath)
+		if err != nil {
+			return "fail", nil, true
+		}
+	}
+	switch {
+	case len(nodes) == 0:
+		if d.Keep {
+			return "present", nil, true
+		}
+		return "absent", nil, true
+	case len(nodes) > 1:
+		return "fail", nil, true
+	}
+	st, v := expectNorm(d, nodes[0].InnerText())
+	return st, v, true
+}
+
+// stringFuncValue: custom_func members calling a built-in function whose parameters are all
+// strings, with leaf arguments.  D3: arguments positionally, an absent value as "", and a present
+// value that is not a string (a type: int / float / boolean cast) FAILS the record - it is never
+// converted.
+func stringFuncValue(d *GDecl, n *idr.Node, externals map[string]string) (string, interface{}, bool) {
+	if d.Func == nil || d.isXPathSet() || d.Const != nil || d.External != nil || d.HasObject || d.HasArray {
+		return "", nil, false
+	}
+	name := d.Func.Name
+	if name != "upper" && name != "lower" && name != "concat" && name != "coalesce" {
+		return "", nil, false
+	}
+	var args []string
+	for _, a := range d.Func.Args {
+		st, v, ok := leafValue(a, n, externals)
+		if !ok {
+			return "", nil, false
+		}
+		switch st {
+		case "fail":
+			return "fail", nil, true
+		case "absent":
+			args = append(args, "")
+		default:
+			if v == nil {
+				args = append(args, "")
+			} else if str, isStr := v.(string); isStr {
+				args = append(args, str)
+			} else {
+				return "fail", nil, true // int64 / float64 / bool is not assignable to string
+			}
+		}
+	}
+	var res string
+	switch name {
+	case "upper", "lower":
+		if len(args) != 1 {
+			return "fail", nil, true
+		}
+		if name == "upper" {
+			res = strings.ToUpper(args[0])
+		} else {
+			res = strings.ToLower(args[0])
+		}
+	case "concat":
+		res = strings.Join(args, "")
+	case "coalesce":
+		for _, x := range args {
+			if x != "" {
+				res = x
+				break
+			}
+		}
+	}
+	st, v := expectNorm(d, res)
+	return st, v, true
+}
+
+func directExpectations(fo *GDecl, n *idr.Node, externals map[string]string) []memberExp {
 	var out []memberExp
 	if fo == nil || !fo.HasObject {
 		return nil
 	}
 	for _, kv := range fo.Object {
-		d := kv.D
-		if d.Func != nil || d.Template != nil || d.HasObject || d.HasArray || d.XDyn != nil {
-			continue
+		state, val, ok := leafValue(kv.D, n, externals)
+		if !ok {
+			state, val, ok = stringFuncValue(kv.D, n, externals)
 		}
-		var state string
-		var val interface{}
-		if d.Const != nil {
-			state, val = expectNorm(d, *d.Const)
-		} else if d.External != nil {
-			if ev, ok := externals[*d.External]; ok {
-				state, val = expectNorm(d, ev)
-			} else {
-				state = "fail"
-			}
-		} else {
-			nodes := []*idr.Node{n}
-			if d.XPath != nil && strings.TrimSpace(*d.XPath) != "" {
-				var err error
-				nodes, err = idr.MatchAll(n, *d.XPath)
-				if err != nil {
-					state = "fail"
-				}
-			}
-			switch {
-			case state == "fail":
-			case len(nodes) == 0:
-				state, val = "absent", nil
-				if d.Keep {
-					state = "present"
-				}
-			case len(nodes) > 1:
-				state = "fail"
-			default:
-				state, val = expectNorm(d, nodes[0].InnerText())
-			}
+		if !ok {
+			continue
 		}
 		me := memberExp{Key: kv.Key, State: state}
 		if state == "present" {
@@ -233,12 +309,13 @@ func (f *capFormat) CreateFormatReader(name string, input io.Reader, rt interfac
 	if err != nil {
 		return nil, err
 	}
-	return &capReader{inner: r, cap: f.cap}, nil
+	return &capReader{inner: r, cap: f.cap, run: f.cap.cur}, nil
 }
 
 type capReader struct {
 	inner fileformat.FormatReader
 	cap   *capture
+	run   *runCap
 }
 
 func pathOf(n *idr.Node) []int {
@@ -383,12 +460,12 @@ func obsTerm(v interface{}) string {
 
 func (r *capReader) Read() (*idr.Node, error) {
 	n, err := r.inner.Read()
-	if err != nil || n == nil || r.cap.decl == nil {
+	if err != nil || n == nil || r.cap.decl == nil || r.run == nil {
 		return n, err
 	}
 	root := vh.Root(n)
 	ro := &recObs{Tree: vh.CoqTree(root), Cursor: pathOf(n), Size: vh.TreeSize(root)}
-	ctx := &transformctx.Ctx{ExternalProperties: externals}
+	ctx := &transformctx.Ctx{ExternalProperties: r.run.ext}
 	func() {
 		defer func() {
 			if p := recover(); p != nil {
@@ -407,8 +484,8 @@ func (r *capReader) Read() (*idr.Node, error) {
 		pc.VerifSetDisableTransformCache(true)
 		ro.Off = canonJSON(pc.ParseNode(n, r.cap.decl))
 	}()
-	ro.Direct = directExpectations(r.cap.fo, n)
-	r.cap.recs = append(r.cap.recs, ro)
+	ro.Direct = directExpectations(r.cap.fo, n, r.run.ext)
+	r.run.recs = append(r.run.recs, ro)
 	return n, err
 }
 func (r *capReader) Release(n *idr.Node)               { r.inner.Release(n) }
@@ -429,12 +506,23 @@ type runOut struct {
 	Clobbered string // bytes returned by an earlier Read changed while later records were read
 }
 
-func runSchema(schema, input string, fo *GDecl) (out *runOut) {
-	out = &runOut{}
+func runSchema(schema, input string, fo *GDecl) *runOut {
+	return runSchemaN(schema, []string{input}, []map[string]string{externals}, fo, false)[0]
+}
+
+// runSchemaN: ONE omniparser.Schema, one transform per (input, externals) pair - read one after
+// the other, or interleaved record by record.
+func runSchemaN(schema string, inputs []string, exts []map[string]string, fo *GDecl, interleave bool) (outs []*runOut) {
+	outs = make([]*runOut, len(inputs))
+	for i := range outs {
+		outs[i] = &runOut{}
+	}
 	cp := &capture{fo: fo}
 	defer func() {
 		if p := recover(); p != nil {
-			out.Panic = fmt.Sprint(p)
+			for _, o := range outs {
+				o.Panic = fmt.Sprint(p)
+			}
 		}
 	}()
 	ext := omniparser.Extension{
@@ -452,37 +540,61 @@ func runSchema(schema, input string, fo *GDecl) (out *runOut) {
 	}
 	s, err := omniparser.NewSchema("c02", strings.NewReader(schema), ext)
 	if err != nil {
-		out.Rejected, out.RejectMsg = true, err.Error()
-		return out
+		for _, o := range outs {
+			o.Rejected, o.RejectMsg = true, err.Error()
+		}
+		return outs
 	}
-	out.Decl = cp.decl
-	t, err := s.NewTransform("in", strings.NewReader(input), &transformctx.Ctx{ExternalProperties: externals})
-	if err != nil {
-		out.Fatal = "NewTransform: " + err.Error()
-		return out
+	type live struct {
+		t    omniparser.Transform
+		run  *runCap
+		done bool
+		n    int
 	}
-	for i := 0; i < 64; i++ {
-		before := len(cp.recs)
-		b, err := t.Read()
+	ts := make([]*live, len(inputs))
+	start := func(i int) {
+		outs[i].Decl = cp.decl
+		run := &runCap{ext: exts[i]}
+		cp.cur = run
+		t, err := s.NewTransform("in", strings.NewReader(inputs[i]), &transformctx.Ctx{ExternalProperties: exts[i]})
+		cp.cur = nil
+		ts[i] = &live{t: t, run: run}
+		if err != nil {
+			outs[i].Fatal = "NewTransform: " + err.Error()
+			ts[i].done = true
+		}
+	}
+	// one Read; false = this transform is finished
+	step := func(i int) bool {
+		l, out := ts[i], outs[i]
+		if l.done || l.n >= 64 {
+			return false
+		}
+		l.n++
+		before := len(l.run.recs)
+		b, err := l.t.Read()
 		if err == io.EOF {
-			break
+			l.done = true
+			return false
 		}
 		if err != nil && !errs.IsErrTransformFailed(err) {
 			out.Fatal = err.Error()
-			break
+			l.done = true
+			return false
 		}
-		if len(cp.recs) != before+1 {
+		if len(l.run.recs) != before+1 {
 			if err != nil {
 				// a per-record failure raised by the reader itself (no node was delivered)
-				continue
+				return true
 			}
 			out.Fatal = "Read returned a record the reader wrapper did not see"
-			break
+			l.done = true
+			return false
 		}
-		ro := cp.recs[len(cp.recs)-1]
+		ro := l.run.recs[len(l.run.recs)-1]
 		if err != nil {
 			ro.Read, ro.ReadObs = "!err", "OFailed"
-			continue
+			return true
 		}
 		ro.Read = canonBytes(b)
 		ro.retained = b // the slice itself, not a copy: re-validated when the run is over
@@ -491,22 +603,43 @@ func runSchema(schema, input string, fo *GDecl) (out *runOut) {
 		var v interface{}
 		_ = dec.Decode(&v)
 		ro.ReadObs = "(OOk " + obsTerm(v) + ")"
+		return true
 	}
-	for i, ro := range cp.recs {
-		if ro.retained != nil && canonBytes(ro.retained) != ro.Read {
-			out.Clobbered = fmt.Sprintf("record %d: was %s, is now %s", i, ro.Read, string(ro.retained))
-			break
+	if interleave {
+		for i := range inputs {
+			start(i)
+		}
+		for more := true; more; {
+			more = false
+			for i := range inputs {
+				if step(i) {
+					more = true
+				}
+			}
+		}
+	} else {
+		for i := range inputs {
+			start(i)
+			for step(i) {
+			}
 		}
 	}
-	// records the reader produced but Read never reported (run ended early)
-	var done []*recObs
-	for _, ro := range cp.recs {
-		if ro.Read != "" {
-			done = append(done, ro)
+	for i, l := range ts {
+		out := outs[i]
+		for j, ro := range l.run.recs {
+			if ro.retained != nil && canonBytes(ro.retained) != ro.Read {
+				out.Clobbered = fmt.Sprintf("record %d: was %s, is now %s", j, ro.Read, string(ro.retained))
+				break
+			}
+		}
+		// records the reader produced but Read never reported (run ended early) are dropped
+		for _, ro := range l.run.recs {
+			if ro.Read != "" {
+				out.Recs = append(out.Recs, ro)
+			}
 		}
 	}
-	out.Recs = done
-	return out
+	return outs
 }
 
 // ---- dumping the validated declaration tree as a Model.Decl.vdecl term ----------------------------
@@ -814,6 +947,35 @@ func xmlDirect(input string, fo *GDecl) [][]memberExp {
 				continue
 			}
 			if d.HasArray && len(d.Array) == 1 && d.XPath == nil && d.XDyn == nil {
+				if e := d.Array[0]; e.Func != nil && e.Func.Name == "verif_echo" && len(e.Func.Args) == 1 && selfField(e.Func.Args[0]) &&
+					!e.Func.Args[0].NoTrim && !e.Func.Args[0].Keep && e.Func.Args[0].Type == nil &&
+					e.XPath != nil && e.XDyn == nil && e.Type == nil && e.Const == nil && !e.HasObject && !e.HasArray {
+					// an element that echoes the text of every selected node, null where it is empty:
+					// with keep_empty_or_null the nulls stay in the array
+					if sl, ok := parseSelector(*e.XPath); ok {
+						me.State = "present"
+						vals := []interface{}{}
+						for _, x := range sl.apply(rec) {
+							t := strings.TrimSpace(x.innerText())
+							switch {
+							case t != "":
+								vals = append(vals, t)
+							case e.Keep:
+								vals = append(vals, nil)
+							}
+						}
+						switch {
+						case len(vals) > 0:
+							put(vals)
+						case d.Keep:
+							put(nil)
+						default:
+							me.State = "absent"
+						}
+						exps = append(exps, me)
+						continue
+					}
+				}
 				if sl, ok := plainField(d.Array[0]); ok {
 					e := d.Array[0]
 					me.State = "present"
